@@ -342,7 +342,8 @@ def cbmc_sat(goto, harness, prop_names, timeout, trace=False):
     for n in prop_names:
         cmd += ["--property", n]
     cmd.append(goto)
-    rc, out, secs = run(cmd, timeout=timeout)
+    with _SYMEX_SLOTS:
+        rc, out, secs = run(cmd, timeout=timeout)
     if rc == -9:
         return None, secs, "timeout"
     st = {}
@@ -366,7 +367,8 @@ def smt_dump(goto, harness, prop_names, outfile, timeout):
     cmd += ["--smt2", "--outfile", outfile, "--verbosity", "8", goto]
     if os.path.exists(outfile):
         os.remove(outfile)
-    rc, out, secs = run(cmd, timeout=timeout)
+    with _SYMEX_SLOTS:
+        rc, out, secs = run(cmd, timeout=timeout)
     if rc == -9:
         return "timeout", secs, 0
     ran = re.search(r"Generated \d+ VCC\(s\), (\d+) remaining after simplification", out)
@@ -401,7 +403,16 @@ def _drop_zero_width_decls(txt):
 SOLVERS = [("cvc5", ["cvc5", "--lang", "smt2"]), ("z3", ["z3-new"])]
 
 
+_SOLVE_SLOTS = threading.BoundedSemaphore(max(1, NCPU // 2))   # each smt_solve runs two solver processes
+_SYMEX_SLOTS = threading.BoundedSemaphore(NCPU)
+
+
 def smt_solve(path, timeout, grace=3.0):
+    with _SOLVE_SLOTS:
+        return _smt_solve(path, timeout, grace)
+
+
+def _smt_solve(path, timeout, grace=3.0):
     """Run cvc5 and z3 in parallel on the same file. First definite answer wins; the other is given
     `grace` seconds and a disagreement makes the result 'disagree'. -> (verdict, solver, secs)"""
     procs = {}
